@@ -491,6 +491,39 @@ void h_c02(void)
     VERIF_COVER(t.type == TRAP_HALT);
 }
 
+/* ---- C02.vm.ARR_SLICE: (array_slice a start length) as documented (docs/STDLIB.md: start, LENGTH) and as the other two
+ * engines compute it: start and length clamped at 0, start clamped at len, count = min(length, len - start); element j of
+ * the result is element start+j of the source.  B(source capacity <= VERIF_ARR_CAP, int elements). ---- */
+void h_c02_slice(void)
+{
+    build_state();
+    VmState *vm = g_vm;
+    __CPROVER_assume(in_stack_size >= 3 && in_v2.tag == TAG_ARRAY && in_v1.tag == TAG_INT && in_v0.tag == TAG_INT);
+    VmArray *src = in_v2.as.array;
+    for (uint32_t i = 0; i < VERIF_ARR_CAP; i++)
+        if (i < src->capacity) { NanoValue e = {0}; e.tag = TAG_INT; e.as.i64 = nondet_i64(); src->elements[i] = e; }
+    __CPROVER_assume(src->header.ref_count >= 2);          /* the source stays alive after the handler's release */
+    int64_t len = src->length, start = in_v1.as.i64, count = in_v0.as.i64;
+    if (start < 0) start = 0;
+    if (count < 0) count = 0;
+    if (start > len) start = len;
+    if (count > len - start) count = len - start;
+    uint32_t j = nondet_u32();
+    int64_t expect_j = (j < count) ? src->elements[start + j].as.i64 : 0;
+    uint32_t ss0 = vm->stack_size;
+    VmTrap t = vm_core_execute(vm);
+    __CPROVER_assert(t.type == TRAP_HALT || t.type == TRAP_NONE, "C02.vm ARR_SLICE does not trap");
+    __CPROVER_assert(vm->stack_size == ss0 - 2, "C02.vm ARR_SLICE consumes three operands, pushes one result");
+    NanoValue r = vm->stack[vm->stack_size - 1];
+    __CPROVER_assert(r.tag == TAG_ARRAY && r.as.array != NULL && r.as.array != src, "C02.vm ARR_SLICE result is a new array");
+    __CPROVER_assert(r.as.array->length == (uint32_t)count, "C02.vm ARR_SLICE length == min(length, len - start) (third operand is a LENGTH)");
+    __CPROVER_assert(j >= count || (r.as.array->elements[j].tag == TAG_INT && r.as.array->elements[j].as.i64 == expect_j),
+                     "C02.vm ARR_SLICE element j == source element start + j");
+    VERIF_COVER(count >= 2 && start >= 1);
+    VERIF_COVER(in_v1.as.i64 < 0);
+    VERIF_COVER(in_v0.as.i64 > (int64_t)4294967296);
+}
+
 /* ---- C02.vm.<OP>f: float operators = the same C double operation on (a, b), results compared as bit patterns ---- */
 static inline uint64_t dbits(double d) { uint64_t u; memcpy(&u, &d, 8); return u; }
 void h_c02f(void)
